@@ -86,5 +86,33 @@ pub proof fn lemma_be_nat_bound(s: Seq<u8>)
     }
 }
 
+
+/// field division by c of an exact multiple c*q is the integer quotient q
+pub proof fn lemma_fdiv_exact(x: nat, c: nat, q: nat)
+    requires x == c * q, 0 < c < P, x < P
+    ensures fdiv(x, c) == q, q < P
+{
+    broadcast use crate::prelude::axiom_finv;
+    assert(q <= x) by(nonlinear_arith) requires x == c * q, c >= 1;
+    assert((q * c) * finv(c) == q * (c * finv(c))) by(nonlinear_arith);
+    assert(c * q == q * c) by(nonlinear_arith);
+    vstd::arithmetic::div_mod::lemma_mul_mod_noop_general(q as int, (c * finv(c)) as int, P as int);
+    vstd::arithmetic::div_mod::lemma_small_mod(q, P);
+    assert((q * ((c * finv(c)) % P)) % P == q % P);
+}
+/// (x / c) * c == x in the field
+pub proof fn lemma_fdiv_back(x: nat, c: nat)
+    requires 0 < c < P, x < P
+    ensures fmul(fdiv(x, c), c) == x
+{
+    broadcast use crate::prelude::axiom_finv;
+    let d = (x * finv(c)) % P;
+    vstd::arithmetic::div_mod::lemma_mul_mod_noop_general((x * finv(c)) as int, c as int, P as int);
+    assert((x * finv(c)) * c == x * (c * finv(c))) by(nonlinear_arith);
+    vstd::arithmetic::div_mod::lemma_mul_mod_noop_general(x as int, (c * finv(c)) as int, P as int);
+    vstd::arithmetic::div_mod::lemma_small_mod(x, P);
+    assert((x * ((c * finv(c)) % P)) % P == x % P);
+}
+
 } // verus!
 } // mod lemmas
